@@ -69,6 +69,15 @@ def gen_case(seed: int, tier: str, index: int) -> Dict[str, Any]:
             else:
                 burst = rng.choice([1, 1, 1, 2, 5])
                 plan.append({"op": "dgram", "datas": ["".join(rng.choice("ABC") for _ in range(rng.randint(1, 4))) + f"#{len(plan)}.{b}.{rng.randrange(10 ** 6)}" for b in range(burst)]})
+        # a handler whose acceptance test itself fails on some input (datagrams marked "!"): which handler such a datagram goes to is not
+        # judged, but the engine must survive it and the datagrams after it are dispatched as ever
+        rng_ch = random.Random(mix(seed, "c20.can_handle"))
+        if rng_ch.random() < 0.35:
+            regs = [o for o in plan if o["op"] == "reg"]
+            rng_ch.choice(regs)["raises"] = "can_handle"
+            for o in plan:
+                if o["op"] == "dgram" and rng_ch.random() < 0.4:
+                    o["datas"] = [d + "!" if rng_ch.random() < 0.6 else d for d in o["datas"]]
     elif sub == "life":
         T = rng.choice([0.15, 0.3, 0.5, 1.0, 2.0, 4.0])
         N = rng.choice([0, 1, 2, 3, 5, 10])
@@ -173,6 +182,9 @@ def handler_classes():
             self.remove_on_answer = kw.get("remove_on_answer", False)
 
         def can_handle(self, received_bytes, sender):
+            if self.raises == "can_handle" and received_bytes.endswith(b"!"):
+                self.record.append(("can_handle_raised", self.hid, received_bytes))
+                raise ValueError("harness handler raises in can_handle")
             return any(received_bytes.startswith(p) for p in self.prefixes)
 
         def handle(self, received_bytes, sender):
@@ -331,6 +343,14 @@ def sub_dispatch(world: WorldT) -> None:
                 world.net.inject(src, me, data, delay=0.001, who="dgram")
                 ndg += 1
                 first = next(((hid, raises) for hid, pref, raises, h in model if any(data.startswith(p) for p in pref)), None)
+                if data.endswith(b"!"):
+                    # does the search reach the handler whose test fails on this datagram before it finds an acceptor?
+                    for hid, pref, raises, h in model:
+                        if raises == "can_handle":
+                            first = ("unjudged", "can_handle")
+                            break
+                        if any(data.startswith(p) for p in pref):
+                            break
                 expected.append((data, first))
             world.wait_until(lambda: not sock._socket.inbox and world.net.in_flight() == 0, 5)
             world.sleep(0.12 + 0.06 * len(op["datas"]))
@@ -349,6 +369,12 @@ def sub_dispatch(world: WorldT) -> None:
     for data, first in expected:
         ctx = f"datagram {data!r}, registration order {[(hid, [p.decode() for p in pref]) for hid, pref, _, _ in model][:8]}"
         takers = [g for g in got if g["data"] == data]
+        if first is not None and first[0] == "unjudged":
+            if any(e[0] == "can_handle_raised" and e[2] == data for e in record):
+                res.probe("handler_raised_in_can_handle")
+            if len(takers) > 1:
+                world.violate(PROP, "dispatch-twice", f"{ctx}: handled by {[t['hid'] for t in takers]}")
+            continue
         if first is None:
             if takers:
                 world.violate(PROP, "dispatch-wrong-handler", f"{ctx}: no registered handler accepts it, yet handler {takers[0]['hid']} handled it")
@@ -624,7 +650,7 @@ ASSUMPTIONS = [
     "registration changes are made between datagrams, so 'the first registered handler that accepts it' is unambiguous",
     "the ping thread may die of the 45 s connection timeout in long loss patterns; the statement is about the handshake",
 ]
-PROBES = ["caller_told_too_long_while_the_handshake_goes_on", "backlog_longer_than_timeout", "registered_while_engine_tidies_up", "handshake_with_unknown_version", "unreliable_simulator_handshake_completed", "incoming_traffic_while_sending", "multi_caller", "preempted_inside_udp_socket", "handler_removed_while_running", "no_handler_accepts", "handler_raised_in_handle",
+PROBES = ["caller_told_too_long_while_the_handshake_goes_on", "handler_raised_in_can_handle", "backlog_longer_than_timeout", "registered_while_engine_tidies_up", "handshake_with_unknown_version", "unreliable_simulator_handshake_completed", "incoming_traffic_while_sending", "multi_caller", "preempted_inside_udp_socket", "handler_removed_while_running", "no_handler_accepts", "handler_raised_in_handle",
           "handler_raised_in_handled", "unanswered", "answered", "answer_after_removal", "handshake_with_losses", "segment_lost_during_handshake"]
 N_QUICK = 4800
 
